@@ -17,7 +17,9 @@ ScriptOk(r) ==
   IF Len(r.ops) = 1 THEN LastOk(nodes, r.ops[1].n) /\ FaultEnabled(nodes, r.ops[1].f, r.ops[1].n) /\ r.count = CountAfter(nodes, r.ops[1].f, r.ops[1].n)
   ELSE LET a == r.ops[1]  b == r.ops[2]
            ca == CountAfter(nodes, a.f, a.n)  cb == CountAfter(nodes, b.f, b.n) IN
-       /\ LastOk(nodes, a.n) /\ LastOk(nodes, b.n) /\ FaultEnabled(nodes, a.f, a.n) /\ FaultEnabled(nodes, b.f, b.n) /\ Disjoint(nodes, a.f, a.n, b.f, b.n)
+       /\ LastOk(nodes, a.n) /\ LastOk(nodes, b.n) /\ FaultEnabled(nodes, a.f, a.n) /\ FaultEnabled(nodes, b.f, b.n) /\ (Disjoint(nodes, a.f, a.n, b.f, b.n)
+              \* (a duplicate is inserted BEHIND the element: a reference inside the element - its first copy - may be retargeted as well)
+              \/ (a.f = "dup" /\ b.f \in {"self", "other", "ancestor"} /\ b.n > a.n /\ b.n <= Last(nodes, a.n)))
        /\ r.count = (IF ca < 0 \/ cb < 0 THEN 0 - 1 ELSE ca + cb - Len(nodes))
 Verdict(r) ==
   IF r.src = "script" /\ ~ScriptOk(r) THEN "HARNESS: the faulted document is not what the fault script yields"
